@@ -634,8 +634,11 @@ func (q *ListObjectsQuery) Execute(
 		p.Close() // ensure that the pipeline is closed after any early loop exits
 
 		if err := p.Err(); err != nil {
-			// current list objects behavior is to elide context cancelation errors
-			if !errors.Is(err, context.Canceled) && !errors.Is(err, context.DeadlineExceeded) {
+			// current list objects behavior is to elide context cancelation errors: the request's own
+			// deadline or cancellation yields partial results. The same error kinds coming from a
+			// datastore read (e.g. a per-read timeout) while the request is still live mean that a branch
+			// was evaluated incompletely, and what an exclusion emitted meanwhile cannot be trusted.
+			if timeoutCtx.Err() == nil || (!errors.Is(err, context.Canceled) && !errors.Is(err, context.DeadlineExceeded)) {
 				return nil, serverErrors.HandleError("", err)
 			}
 		}
@@ -816,7 +819,8 @@ func (q *ListObjectsQuery) ExecuteStreamed(ctx context.Context, req *openfgav1.S
 		}
 		p.Close() // ensure that the pipeline is closed after any early loop exits
 
-		if errRx != nil && !errors.Is(errRx, context.Canceled) && !errors.Is(errRx, context.DeadlineExceeded) {
+		// cancellation errors are elided only when they stem from this request's own context (see ListObjects)
+		if errRx != nil && (timeoutCtx.Err() == nil || (!errors.Is(errRx, context.Canceled) && !errors.Is(errRx, context.DeadlineExceeded))) {
 			if errors.Is(errRx, condition.ErrEvaluationFailed) {
 				err = serverErrors.ValidationError(errRx)
 			} else {
